@@ -16,7 +16,8 @@ THEOREMS = ["merger_eq_spec", "mergerFrom_spec", "merge_buffer_independent", "me
             "merger_agg_eq_spec", "mergerAggFrom_spec", "merge_agg_comm", "merge_agg_buffer_independent", "groupAgg_sum", "groupAgg_eq_of",
             # the refusal clause (Props/C07Compat.lean)
             "compat_accepts_iff", "compat_accepts_same", "compat_same_accepts", "merge_refuses", "fastpath_sound",
-            "uniform_table_unique", "uniformChrom_unique", "sorted_ext", "rows_inj", "compat_ok_iff", "legacy_fastpath_unsound"]
+            "uniform_table_unique", "uniformChrom_unique", "sorted_ext", "rows_inj", "compat_ok_iff", "legacy_fastpath_unsound",
+            "fixed_group_is_tiling", "merge_refuses_empty"]
 LEVELS = {"merge": "top", "refuses": "top", "compat": "top", "limits": "top", "breakpoints": "unit", "agg": "top", "mixed_dtypes": "top", "cli_merge": "top"}
 DESCRIBE = {
     "merge": "cooler.merge_coolers(out, inputs, mergebuf) for EVERY mergebuf 1..sum(nnz)+1 and every order of the inputs, plus a "
@@ -41,7 +42,7 @@ RULE = ("k = 1..3 (quick) / 1..4 (thorough) inputs over a common table of n<=5 b
         "with leading empties, random), symmetric and square; mergebuf exhaustive 1..sum(nnz)+1; all k! input orders; nested merges; "
         "non-trivial = >=2 inputs sharing at least one pixel; distinct by canonical JSON.  Check `compat` is EXHAUSTIVE over its small "
         "universe: every ordered pair (and triples with the odd one at each position) of valid segmentations with equal chromosome "
-        "sizes (1 chromosome of length <=5, 2 chromosomes of total length <=6; thorough <=6 / <=7), every ordered pair of ALL valid "
+        "sizes (1 chromosome of length <=5, 2 chromosomes of total length <=5; thorough <=6 / <=7), every ordered pair of ALL valid "
         "segmentations of <=2 chromosomes of length <=3 (thorough <=4), every name variant and storage-mode mix of those; plus "
         "seeded larger tables")
 # `compat` (and mergebuf in `merge`) enumerate exhaustively; the merge inputs themselves are sampled
@@ -448,7 +449,7 @@ def _compat_cases(tier, rng):
     thorough = tier == "thorough"
     # (a) EQUAL chromosome sizes, every valid segmentation: all ordered pairs, the odd one out of three at every position.
     #     This is where the bin-size shortcut (which never looks at the tables) has to be sound.
-    one, two, trip = (6, 7, 6) if thorough else (5, 6, 4)
+    one, two, trip = (6, 7, 6) if thorough else (5, 5, 4)
     for n in (1, 2):
         for sizes in itertools.product(range(1, 7), repeat=n):
             if sum(sizes) > (one if n == 1 else two):
@@ -466,7 +467,8 @@ def _compat_cases(tier, rng):
     #     lengths, fixed first / variable first, one-bin chromosomes ...)
     m = 4 if thorough else 3
     pool = [_inp(t) for n in (1, 2) for t in _all_tables(m, n)]
-    lists = [[i, j] for i in range(len(pool)) for j in range(len(pool)) if i != j]
+    sizes_of = [sorted({b[0]: b[2] for b in x["bins"]}.items()) for x in pool]       # chromosome id -> end of its last bin
+    lists = [[i, j] for i in range(len(pool)) for j in range(len(pool)) if sizes_of[i] != sizes_of[j]]      # equal sizes: see (a)
     yield from _chunks("all-pairs", pool, lists)
     # (c) names: same lengths under other names, same names in another order (ids re-assigned or not)
     for mm, full in ((2, True), (3, False)):
@@ -477,7 +479,7 @@ def _compat_cases(tier, rng):
             if full:
                 lists = [[i, j] for i in range(6) for j in range(6)] + [l for j in range(1, 6) for l in _odd_one_out(0, j, True)]
             else:
-                lists = [l for j in range(1, 6) for l in ([0, j], [j, 0])] + [l for j in (1, 3, 4) for l in _odd_one_out(0, j, False)]
+                lists = [[0, j] for j in range(1, 6)] + [[1, 0], [4, 0]] + _odd_one_out(0, 1 + len(t) % 5, False)
             yield from _chunks("names", v, lists)
     pool = [_inp(t, [k]) for t in _all_tables(3, 1) for k in (0, 1)]
     yield from _chunks("names", pool, [[i, i ^ 1] for i in range(len(pool))] + [[0, 1, 0], [2, 2, 3]])
@@ -492,7 +494,7 @@ def _compat_cases(tier, rng):
                         [[0, 1], [1, 0], [[0, 0, 1], [0, 1, 0], [1, 0, 0], [1, 1, 1]][len(t) % 4]]
                 yield from _chunks("modes", pool, lists)
     # (e) fixed-width tables of different widths over the same chromosome sizes (larger genomes)
-    sizes_list = [[L] for L in (range(1, 15) if thorough else (7, 10, 12))]
+    sizes_list = [[L] for L in (range(1, 15) if thorough else (6, 10))]
     for _ in range(10 if thorough else 3):
         sizes_list.append([rng.randint(1, 12) for _ in range(rng.randint(2, 3))])
     for sizes in sizes_list:
